@@ -39,10 +39,12 @@ theorem start_GI {s : BSt} (h : Start s) (hg : s.cfg.grace ≠ 0) (hr : s.cfg.re
     sorted := fun i => by rw [hth]; exact List.Pairwise.nil
     leNow := fun i st hst => by rw [hth] at hst; cases hst
     qc := fun i => by rw [hth]; exact qc_default
-    bufCache := fun i hb => by rw [hth] at hb; exact absurd rfl hb
+    reg := fun i hc => by rw [hth] at hc; exact absurd rfl hc
+    bufCache := fun i _ hb => by rw [hth] at hb; exact absurd rfl hb
     cacheReg := fun i hi => by rw [h.cache] at hi; cases hi
     fresh := fun _ i hi => by rw [h.registry] at hi; cases hi
     ctxLt := fun a x i hx => by rw [hact] at hx; cases hx
+    ctxReg := fun a x i hx => by rw [hact] at hx; cases hx
     ctxInj := fun a b x y i hx => by rw [hact] at hx; cases hx
     pend := fun a x st hx => by rw [hact] at hx; cases hx
     ord := fun _ => {
